@@ -42,17 +42,21 @@ Fixpoint check_obs (n k : nat) (s : state) (seen_true : list nat) (settled : boo
 Definition os_spawn (_ : pst) : pst := Alive.
 Definition os_terminate (_ : pst) : pst := Ended.
 
-Fixpoint check_life (k : nat) (nw : network) (steps : list (nop * list bool)) : nat :=
+(* one observed step: the call, the liveness of the processes after it, the cached flag Network._running after it (the flag is
+   compared after stop only: after a start it is set by the polling [running] property, which is not modelled) *)
+Fixpoint check_life (k : nat) (nw : network) (steps : list (nop * list bool * bool)) : nat :=
   match steps with
   | [] => 0
-  | (o, alive) :: t =>
+  | (o, alive, flag) :: t =>
       let nw' := apply os_spawn os_terminate nw o in
-      if list_eqb Bool.eqb (map is_alive (procs nw')) alive then check_life (S k) nw' t else S k
+      if list_eqb Bool.eqb (map is_alive (procs nw')) alive
+         && match o with Stop => Bool.eqb (running_flag nw') flag | Start => true end
+      then check_life (S k) nw' t else S k
   end.
 
 Inductive dcase :=
 | CStagger (n : nat) (obs : list oev)
-| CLife (nodes : nat) (steps : list (nop * list bool)).
+| CLife (nodes : nat) (steps : list (nop * list bool * bool)).
 
 Definition check_case (c : dcase) : bool :=
   match c with
@@ -66,7 +70,7 @@ Definition failing_cases (l : list dcase) : list nat := failing (map check_case 
 Example judge_accepts :
   failing_cases [CStagger 2 [OLaunch 1; OCheck 1 false; OLaunch 0; OCheck 0 false; OCheck 1 true; OSettled; OCheck 0 true; OCheck 1 true];
                  CStagger 1 [OLaunch 0; OCheck 0 true; OSettled; OCheck 0 true];
-                 CLife 1 [(Start, [true; true]); (Stop, [false; false]); (Start, [true; true])]] = [].
+                 CLife 1 [(Start, [true; true], true); (Stop, [false; false], false); (Start, [true; true], false)]] = [].
 Proof. vm_compute. reflexivity. Qed.
 
 Example judge_rejects :
@@ -74,6 +78,7 @@ Example judge_rejects :
                  CStagger 2 [OLaunch 1; OLaunch 0; OCheck 1 true; OCheck 1 false];        (* not stable *)
                  CStagger 2 [OLaunch 1; OLaunch 0; OSettled; OCheck 0 false];             (* never connected *)
                  CStagger 1 [OLaunch 0; OCheck 0 false];                                  (* len(conn) compared with the wrong number *)
-                 CLife 1 [(Start, [true; true]); (Stop, [false; true])];                  (* a process survives stop *)
-                 CLife 1 [(Start, [true; true]); (Stop, [false; false]); (Start, [false; false])]] = [0; 1; 2; 3; 4; 5].
+                 CLife 1 [(Start, [true; true], true); (Stop, [false; true], false)];     (* a process survives stop *)
+                 CLife 1 [(Start, [true; true], true); (Stop, [false; false], false); (Start, [false; false], false)];
+                 CLife 1 [(Start, [true; true], true); (Stop, [false; false], true)]] = [0; 1; 2; 3; 4; 5; 6].   (* stale running flag *)
 Proof. vm_compute. reflexivity. Qed.
